@@ -1359,6 +1359,10 @@ func RunC12(ctx *core.Ctx) {
 	go func() { defer wg.Done(); c12RunShard(ctx, "seek", 0, ctx.Scale(300, 6000)) }()
 	for w := 0; w < 2; w++ {
 		wg.Add(1)
+		go func(w int) { defer wg.Done(); c12RunShard(ctx, "bigmerge", w, ctx.Scale(5, 60)) }(w)
+	}
+	for w := 0; w < 2; w++ {
+		wg.Add(1)
 		go func(w int) { defer wg.Done(); c12RunShard(ctx, "variant", w, ctx.Scale(100, 2000)) }(w)
 	}
 	wg.Wait()
@@ -1524,6 +1528,8 @@ func c12Worker(args []string) int {
 				c12SortedCase(ctx, ask, r, at)
 			case "seek":
 				c12SeekCase(ctx, ask, r, at)
+			case "bigmerge":
+				c12BigMergeCase(ctx, r, at)
 			case "variant":
 				c12VariantCase(ctx, r, at)
 			}
@@ -2007,6 +2013,33 @@ type c12B3 struct {
 type c12A4 struct {
 	F1 *string `parquet:"f1,optional"`
 }
+
+// pure permutation, at the top and inside groups; the columns that swap places have the same
+// physical type, so that unconverted rows would reconstruct without an error
+type c12Pos struct {
+	Lat  float64 `parquet:"lat"`
+	Lon  float64 `parquet:"lon"`
+	Note *string `parquet:"note,optional"`
+}
+type c12PosB struct {
+	Note *string `parquet:"note,optional"`
+	Lon  float64 `parquet:"lon"`
+	Lat  float64 `parquet:"lat"`
+}
+type c12A5 struct {
+	ID    int64    `parquet:"id"`
+	Name  string   `parquet:"name"`
+	Score int64    `parquet:"score"`
+	Pos   c12Pos   `parquet:"pos"`
+	Tags  []string `parquet:"tags"`
+}
+type c12B5 struct {
+	Tags  []string `parquet:"tags"`
+	Score int64    `parquet:"score"`
+	Pos   c12PosB  `parquet:"pos"`
+	Name  string   `parquet:"name"`
+	ID    int64    `parquet:"id"`
+}
 type c12N3 struct {
 	F4 []int64 `parquet:"f4"`
 }
@@ -2022,28 +2055,174 @@ func c12ReadAs[A, B any](ctx *core.Ctx, at func(path, mode string, detail any), 
 		ctx.Fail("L1", "typed-write-error:"+name, err.Error(), nil)
 		return
 	}
-	var got []B
-	_, err := c12Guard(func() (*c12Out, error) {
-		var err error
-		got, err = parquet.Read[B](bytes.NewReader(buf.Bytes()), int64(buf.Len()))
-		return nil, err
-	})
-	ctx.Case(name+fmt.Sprint(rows), true)
-	ctx.Hist("path", "read-typed:"+name)
-	if err != nil {
-		k := "path-error:read-typed:" + name + ":" + errClass(err)
-		if strings.HasPrefix(err.Error(), "PANIC") {
-			k = "path-panic:read-typed:" + name
+	file := buf.Bytes()
+	drain := func(rd *parquet.GenericReader[B]) ([]B, error) {
+		defer rd.Close()
+		var out []B
+		tmp := make([]B, 3)
+		for guard := 0; guard < 1<<20; guard++ {
+			n, err := rd.Read(tmp)
+			out = append(out, tmp[:n]...)
+			if err == io.EOF {
+				return out, nil
+			}
+			if err != nil {
+				return out, err
+			}
+			if n == 0 {
+				return out, fmt.Errorf("Read returned 0 rows and no error")
+			}
+			tmp = make([]B, 3)
 		}
-		ctx.Fail("L1", k, err.Error(), map[string]any{"rows": fmt.Sprintf("%+v", rows)})
+		return out, fmt.Errorf("Read does not terminate")
+	}
+	// every typed entry point that reads a file / row group written as A into B
+	entries := []struct {
+		name string
+		run  func() ([]B, error)
+	}{
+		{"read-typed", func() ([]B, error) { return parquet.Read[B](bytes.NewReader(file), int64(len(file))) }},
+		{"generic-reader-typed", func() ([]B, error) {
+			return drain(parquet.NewGenericReader[B](bytes.NewReader(file)))
+		}},
+		{"generic-rowgroup-reader-typed-file", func() ([]B, error) {
+			f, err := parquet.OpenFile(bytes.NewReader(file), int64(len(file)))
+			if err != nil {
+				return nil, err
+			}
+			var out []B
+			for _, rg := range f.RowGroups() {
+				got, err := drain(parquet.NewGenericRowGroupReader[B](rg))
+				out = append(out, got...)
+				if err != nil {
+					return out, err
+				}
+			}
+			return out, nil
+		}},
+		{"generic-rowgroup-reader-typed-buffer", func() ([]B, error) {
+			gb := parquet.NewGenericBuffer[A]()
+			if _, err := gb.Write(rows); err != nil {
+				return nil, err
+			}
+			return drain(parquet.NewGenericRowGroupReader[B](gb))
+		}},
+		{"reader-read-typed", func() ([]B, error) {
+			rd := parquet.NewReader(bytes.NewReader(file))
+			defer rd.Close()
+			var out []B
+			for guard := 0; guard < 1<<20; guard++ {
+				var b B
+				err := rd.Read(&b)
+				if err == io.EOF {
+					return out, nil
+				}
+				if err != nil {
+					return out, err
+				}
+				out = append(out, b)
+			}
+			return out, fmt.Errorf("Read does not terminate")
+		}},
+	}
+	for _, e := range entries {
+		at(e.name+":"+name, "typed", fmt.Sprintf("%+v", rows))
+		var got []B
+		_, err := c12Guard(func() (*c12Out, error) {
+			var err error
+			got, err = e.run()
+			return nil, err
+		})
+		ctx.Case(e.name+name+fmt.Sprint(rows), true)
+		ctx.Hist("path", e.name+":"+name)
+		if err != nil {
+			k := "path-error:" + e.name + ":" + name + ":" + errClass(err)
+			if strings.HasPrefix(err.Error(), "PANIC") {
+				k = "path-panic:" + e.name + ":" + name
+			}
+			if key != "" {
+				k = key
+			}
+			ctx.Fail("L1", k, err.Error(), map[string]any{"rows": fmt.Sprintf("%+v", rows), "entry": e.name})
+			continue
+		}
+		if !c12DeepEq(reflect.ValueOf(got), reflect.ValueOf(want)) {
+			k := key
+			if k == "" {
+				k = "shared-column-altered:" + e.name + ":" + name
+			}
+			ctx.Fail("L1", k, fmt.Sprintf("%s: %T read from rows written as %T", e.name, *new(B), *new(A)),
+				map[string]any{"rows": fmt.Sprintf("%+v", rows), "entry": e.name, "expected": c12Dump(reflect.ValueOf(want)), "got": c12Dump(reflect.ValueOf(got))})
+		}
+	}
+}
+
+// c12Retarget: one deprecated Reader over a file written as A, every Read call with a target
+// type drawn at random from {A, B}: the k-th call must yield row k seen through the type it was
+// given (the row cursor is shared, the conversion is that of the CURRENT target).
+func c12Retarget[A, B any](ctx *core.Ctx, r *rand.Rand, at func(path, mode string, detail any), name string, rows []A, want []B) {
+	var buf bytes.Buffer
+	if _, err := c12Guard(func() (*c12Out, error) { return nil, parquet.Write(&buf, rows) }); err != nil {
+		ctx.Fail("L1", "typed-write-error:"+name, err.Error(), nil)
 		return
 	}
-	if !c12DeepEq(reflect.ValueOf(got), reflect.ValueOf(want)) {
-		if key == "" {
-			key = "shared-column-altered:read-typed:" + name
+	file := buf.Bytes()
+	var targets []string
+	for range rows {
+		targets = append(targets, []string{"A", "B"}[r.Intn(2)])
+	}
+	// runs of the same target of length >= 2 and switches both ways are wanted
+	det := map[string]any{"rows": fmt.Sprintf("%+v", rows), "targets": strings.Join(targets, ""), "written_as": fmt.Sprintf("%T", *new(A)), "other_target": fmt.Sprintf("%T", *new(B))}
+	at("reader-read-retarget:"+name, "typed", det)
+	switches := 0
+	for i := 1; i < len(targets); i++ {
+		if targets[i] != targets[i-1] {
+			switches++
 		}
-		ctx.Fail("L1", key, fmt.Sprintf("Read[%T] of a file written as %T", *new(B), *new(A)),
-			map[string]any{"rows": fmt.Sprintf("%+v", rows), "expected": c12Dump(reflect.ValueOf(want)), "got": c12Dump(reflect.ValueOf(got))})
+	}
+	ctx.Case("retarget"+name+fmt.Sprint(rows)+strings.Join(targets, ""), switches > 0)
+	ctx.Hist("path", "reader-read-retarget:"+name)
+	ctx.Hist("retarget-switches", fmt.Sprint(min(switches, 8)))
+	bad := ""
+	_, err := c12Guard(func() (*c12Out, error) {
+		rd := parquet.NewReader(bytes.NewReader(file))
+		defer rd.Close()
+		for i, tg := range targets {
+			var got, exp reflect.Value
+			var err error
+			if tg == "A" {
+				var a A
+				err = rd.Read(&a)
+				got, exp = reflect.ValueOf(a), reflect.ValueOf(rows[i])
+			} else {
+				var b B
+				err = rd.Read(&b)
+				got, exp = reflect.ValueOf(b), reflect.ValueOf(want[i])
+			}
+			if err != nil {
+				return nil, fmt.Errorf("call %d (target %s): %w", i, tg, err)
+			}
+			if !c12DeepEq(got, exp) && bad == "" {
+				bad = fmt.Sprintf("call %d (target %s): expected %s got %s", i, tg, c12Dump(exp), c12Dump(got))
+			}
+		}
+		var a A
+		if err := rd.Read(&a); err != io.EOF {
+			return nil, fmt.Errorf("call %d after the last row: %v instead of io.EOF", len(targets), err)
+		}
+		return nil, nil
+	})
+	if err != nil {
+		k := "path-error:reader-read-retarget:" + name + ":" + errClass(err)
+		if strings.HasPrefix(err.Error(), "PANIC") {
+			k = "path-panic:reader-read-retarget:" + name
+		}
+		ctx.Fail("L1", k, err.Error(), det)
+		return
+	}
+	if bad != "" {
+		ctx.Fail("L1", "shared-column-altered:reader-read-retarget:"+name,
+			"Reader.Read with a target type that changes between calls: "+bad, det)
 	}
 }
 
@@ -2095,6 +2274,8 @@ func c12TypedCase(ctx *core.Ctx, r *rand.Rand, at func(path, mode string, detail
 		var b3 []c12B3
 		var a4 []c12A4
 		var b4 []c12B4
+		var a5 []c12A5
+		var b5 []c12B5
 		for i := 0; i < n; i++ {
 			x := c12A1{X: r.Int63n(100) - 50, Y: fmt.Sprint("s", r.Intn(5))}
 			if r.Intn(2) == 0 {
@@ -2128,11 +2309,26 @@ func c12TypedCase(ctx *core.Ctx, r *rand.Rand, at func(path, mode string, detail
 			}
 			a4 = append(a4, z)
 			b4 = append(b4, c12B4{F1: z.F1})
+
+			u := c12A5{ID: int64(i), Name: fmt.Sprint("name-", i), Score: 1000 + r.Int63n(50), Pos: c12Pos{Lat: float64(i) / 4, Lon: -float64(i) / 2}}
+			if r.Intn(2) == 0 {
+				u.Pos.Note = ps(fmt.Sprint("note-", i))
+			}
+			for j := r.Intn(3); j > 0; j-- {
+				u.Tags = append(u.Tags, fmt.Sprint("t", i, "-", j))
+			}
+			a5 = append(a5, u)
+			b5 = append(b5, c12B5{ID: u.ID, Name: u.Name, Score: u.Score, Tags: u.Tags, Pos: c12PosB{Lat: u.Pos.Lat, Lon: u.Pos.Lon, Note: u.Pos.Note}})
 		}
 		c12ReadAs(ctx, at, "drop-permute-flat", "", a1, b1)
 		c12ReadAs(ctx, at, "drop-permute-in-repeated-group", "", a2, b2)
 		c12ReadAs(ctx, at, "add-optional-and-required-at-root", "", a3, b3)
 		c12ReadAs(ctx, at, "add-repeated-group-next-to-optional", "added-column-borrows-sibling-levels:repeated-next-to-optional-sibling", a4, b4)
+		c12ReadAs(ctx, at, "permute-only", "", a5, b5)
+		c12Retarget(ctx, r, at, "drop-permute-flat", a1, b1)
+		c12Retarget(ctx, r, at, "drop-permute-in-repeated-group", a2, b2)
+		c12Retarget(ctx, r, at, "add-optional-and-required-at-root", a3, b3)
+		c12Retarget(ctx, r, at, "permute-only", a5, b5)
 	}
 }
 
@@ -2538,6 +2734,231 @@ func c12DropShape(mask, n int) string {
 		return "dropped-none"
 	}
 	return "dropped-" + strings.Join(pos, "+")
+}
+
+// ---------------------------------------------------------------- merge of partly overlapping sorted files through a schema
+
+// One case: two files sorted by a required int64 `id`, written with small pages and page indexes,
+// whose key ranges overlap only in part (file A holds ids [0,nA), file B ids [lo,lo+nB) with
+// 0 < lo < nA < lo+nB and both lone stretches longer than the 1024 rows from which MergeRowGroups
+// serves a stretch as a row-range view over the column chunks of the converted row group). The
+// row of an id is a function of the id, so that the two copies of an id in the overlap are equal
+// and the merged sequence is fully determined. Target: fields deleted and permuted at any depth
+// (never `id`). Paths: MergeRowGroups(schema, sorting).Rows(); CopyRows of those rows into a
+// writer; WriteRowGroup of the merged row group. Expected: the reference shredding of the
+// projected rows in id order.
+func c12BigMergeCase(ctx *core.Ctx, r *rand.Rand, at func(path, mode string, detail any)) {
+	g := &c12Gen{r: r}
+	var src *c12Node
+	for {
+		src = g.schema()
+		if len(src.fields) >= 2 || src.numLeaves() >= 2 {
+			break
+		}
+	}
+	idf := &c12Node{name: "id", rep: 0, kind: 2}
+	pos := r.Intn(len(src.fields) + 1)
+	src.fields = append(src.fields[:pos:pos], append([]*c12Node{idf}, src.fields[pos:]...)...)
+	var tg *c12Target
+	for try := 0; ; try++ {
+		mode := "drop-permute"
+		if r.Intn(3) == 0 || try > 10 {
+			mode = "permute"
+		}
+		tg = g.target(src, mode)
+		if tg.node.field("id") != nil && tg.node.text() != src.text() {
+			break
+		}
+		if try > 20 {
+			break
+		}
+	}
+	tgt := tg.node
+	tleaves := tgt.leaves()
+	srcS := parquet.NewSchema("src", src.build())
+	tgtS := parquet.NewSchema("tgt", tgt.build())
+	nA := 1200 + r.Intn(1800)
+	lo := 1030 + r.Intn(nA-1030-20)
+	nB := (nA - lo) + 1030 + r.Intn(1500)
+	pageBytes := []int{256, 1024, 4096}[r.Intn(3)]
+	salt := r.Int63()
+	nullP := []float64{0.1, 0.4}[r.Intn(2)]
+	valOf := func(id int64) *c12Val {
+		rr := rand.New(rand.NewSource(salt ^ (id * 0x9E3779B97F4A7C)))
+		v := c12GenBody(rr, src, nullP, 2)
+		for i, f := range src.fields {
+			if f.name == "id" {
+				v.kids[i] = &c12Val{k: 'P', p: parquet.ValueOf(id)}
+			}
+		}
+		return v
+	}
+	det := map[string]any{"source": src.text(), "target": tgt.text(), "mode": tg.mode, "ops": tg.ops,
+		"file_a_ids": fmt.Sprintf("[0,%d)", nA), "file_b_ids": fmt.Sprintf("[%d,%d)", lo, lo+nB),
+		"page_buffer_size": pageBytes, "row_salt": salt, "null_probability": nullP,
+		"sorting": "id asc", "rows": "row(id) = c12GenBody(rand(salt ^ id*0x9E3779B97F4A7C), source, null_probability, 2) with id set"}
+	ctx.Case(fmt.Sprint(det), true)
+	ctx.Hist("big-merge-mode", tg.mode)
+	ctx.Hist("big-merge-page-buffer-size", fmt.Sprint(pageBytes))
+
+	sorting := parquet.SortingColumns(parquet.Ascending("id"))
+	write := func(from, n int) (*parquet.File, error) {
+		var buf bytes.Buffer
+		w := parquet.NewWriter(&buf, srcS, parquet.PageBufferSize(pageBytes), parquet.SortingWriterConfig(sorting))
+		batch := make([]parquet.Row, 0, 64)
+		for i := 0; i < n; i++ {
+			batch = append(batch, c12RowOf(c12ShredRow(src, valOf(int64(from+i)))))
+			if len(batch) == cap(batch) || i == n-1 {
+				if _, err := w.WriteRows(batch); err != nil {
+					return nil, err
+				}
+				batch = batch[:0]
+			}
+		}
+		if err := w.Close(); err != nil {
+			return nil, err
+		}
+		f, err := parquet.OpenFile(bytes.NewReader(buf.Bytes()), int64(buf.Len()))
+		if err != nil {
+			return nil, err
+		}
+		if len(f.RowGroups()) != 1 {
+			return nil, fmt.Errorf("%d row groups", len(f.RowGroups()))
+		}
+		return f, nil
+	}
+	var fa, fb *parquet.File
+	at("big-merge-source-write", tg.mode, det)
+	if _, err := c12Guard(func() (*c12Out, error) {
+		var err error
+		if fa, err = write(0, nA); err != nil {
+			return nil, err
+		}
+		fb, err = write(lo, nB)
+		return nil, err
+	}); err != nil {
+		ctx.Fail("L1", "source-write-error "+errClass(err), "cannot write the sorted source files: "+err.Error(), det)
+		return
+	}
+	// expected streams
+	var ids []int64
+	for a, b := 0, lo; a < nA || b < lo+nB; {
+		if b >= lo+nB || (a < nA && a <= b) {
+			ids = append(ids, int64(a))
+			a++
+		} else {
+			ids = append(ids, int64(b))
+			b++
+		}
+	}
+	exp := make([][]gen.Triple, len(tleaves))
+	for _, id := range ids {
+		cols := c12ShredRow(tgt, c12ProjectBody(src, tgt, valOf(id)))
+		for ci, col := range cols {
+			for _, x := range col {
+				exp[ci] = append(exp[ci], c12Canon(nil, x, tleaves[ci]))
+			}
+		}
+	}
+	cs := &c12Case{src: src, tgt: tgt, srcS: srcS, tgtS: tgtS, tleaves: tleaves}
+	merge := func() (parquet.RowGroup, error) {
+		m, err := parquet.MergeRowGroups([]parquet.RowGroup{fa.RowGroups()[0], fb.RowGroups()[0]}, tgtS, parquet.SortingRowGroupConfig(sorting))
+		if err != nil {
+			return nil, err
+		}
+		if int(m.NumRows()) != len(ids) {
+			return nil, fmt.Errorf("merged row group declares %d rows for %d", m.NumRows(), len(ids))
+		}
+		return m, nil
+	}
+	paths := []struct {
+		name string
+		run  func() (*c12Out, error)
+	}{
+		{"merge-sorted-overlapping-rows", func() (*c12Out, error) {
+			m, err := merge()
+			if err != nil {
+				return nil, err
+			}
+			rr := m.Rows()
+			defer rr.Close()
+			rows, err := c12ReadRows(rr, 100)
+			if err != nil {
+				return nil, err
+			}
+			return cs.rowsOut(ctx, rows)
+		}},
+		{"merge-sorted-overlapping-copy-rows", func() (*c12Out, error) {
+			m, err := merge()
+			if err != nil {
+				return nil, err
+			}
+			rr := m.Rows()
+			defer rr.Close()
+			var buf bytes.Buffer
+			w := parquet.NewWriter(&buf, tgtS)
+			n, err := parquet.CopyRows(w, rr)
+			if err != nil {
+				return nil, err
+			}
+			if err := w.Close(); err != nil {
+				return nil, err
+			}
+			if int(n) != len(ids) {
+				return nil, fmt.Errorf("CopyRows reported %d rows for %d", n, len(ids))
+			}
+			return cs.fileOut(ctx, buf.Bytes())
+		}},
+		{"merge-sorted-overlapping-write-rowgroup", func() (*c12Out, error) {
+			m, err := merge()
+			if err != nil {
+				return nil, err
+			}
+			var buf bytes.Buffer
+			w := parquet.NewWriter(&buf, tgtS)
+			if _, err := w.WriteRowGroup(m); err != nil {
+				return nil, err
+			}
+			if err := w.Close(); err != nil {
+				return nil, err
+			}
+			return cs.fileOut(ctx, buf.Bytes())
+		}},
+	}
+	for _, p := range paths {
+		at(p.name, tg.mode, det)
+		ctx.Hist("path", p.name)
+		out, err := c12Guard(p.run)
+		if err != nil && out == nil {
+			k := "path-error:" + p.name + ":" + tg.mode + ":" + errClass(err)
+			if strings.HasPrefix(err.Error(), "PANIC") {
+				k = "path-panic:" + p.name + ":" + tg.mode
+			}
+			ctx.Fail("L1", k, err.Error(), det)
+			continue
+		}
+		col, idx, desc := c12FirstDiff(exp, out.cols)
+		if col < 0 && err == nil && out.nrows == len(ids) {
+			continue
+		}
+		what := fmt.Sprintf("rows expected %d got %d", len(ids), out.nrows)
+		key := "row-count-or-structure:" + p.name + ":" + tg.mode
+		if err != nil {
+			what += "; " + err.Error()
+		}
+		if col >= 0 {
+			key = "shared-column-altered:" + p.name + ":" + tg.mode
+			what = fmt.Sprintf("target column %s (index %d), stream entry %d: %s", strings.Join(tleaves[col].path, "."), col, idx, desc)
+			if err != nil {
+				what += "; " + err.Error()
+			}
+		}
+		m := map[string]any{"path": p.name}
+		for k, v := range det {
+			m[k] = v
+		}
+		ctx.Fail("L1", key, "path "+p.name+": "+what, m)
+	}
 }
 
 // ---------------------------------------------------------------- ConvertRowReader: batches and seeks
